@@ -2,9 +2,15 @@
 From Coq Require Extraction.
 From Coq Require Import ExtrOcamlBasic.
 From SQ Require Import lib.Base.
-From SQ Require model.Varint.
+From SQ Require model.Varint model.Frame model.PacketHeader.
 Extraction Language OCaml.
 
 Definition varint_run := Varint.run.
 Definition varint_judge := Varint.judge.
-Extraction "../ocaml/gen/C05/model.ml" varint_run varint_judge.
+Definition frames_run := Frame.run.
+Definition frames_judge := Frame.judge.
+Definition packets_run := PacketHeader.run.
+Definition packets_judge := PacketHeader.judge.
+Definition pn_run := PacketHeader.run_pn.
+Definition pn_judge := PacketHeader.judge_pn.
+Extraction "../ocaml/gen/C05/model.ml" varint_run varint_judge frames_run frames_judge packets_run packets_judge pn_run pn_judge.
